@@ -345,6 +345,20 @@ class Locator:
             return res
         raise ModelError('lattice cell must be an intersection of planes')
 
+    def _leaves_any(self, expr):
+        """Surface numbers referred to directly (not through #n) by an
+        expression of any shape."""
+        if expr is None:
+            return []
+        if expr[0] in ('s', 'f'):
+            return [expr[1]]
+        if expr[0] == '#':
+            return []
+        out = []
+        for sub in expr[1:]:
+            out.extend(self._leaves_any(sub))
+        return out
+
     def _locate_u(self, u, P, idx, chain, out, depth):
         if depth > 12:
             raise ModelError('universe nesting too deep / cyclic')
